@@ -37,19 +37,24 @@ def check_tree(d: dict[str, Any]) -> str | None:
         pre = KFACPreconditioner(model, skip_layers=skip)
     got = [name for name, _ in pre._layers.values()]
     want = ['.'.join(leaves[i - 1]['path']) for i in d['reg']]
-    if got != want:
+    # the registered SET is the property; the order of registration is not
+    if sorted(got) != sorted(want) or len(set(got)) != len(got):
         return f'registered {got} spec {want}'
     reg_insts = {id(insts[i - 1]) for i in d['reg']}
     got_insts = {id(m) for m in pre._layers}
     if reg_insts != got_insts:
         return 'registered instances differ'
     for m in model.modules():
-        nf = len(m._forward_pre_hooks)
-        nb = len(m._backward_hooks)
-        want_n = 1 if id(m) in reg_insts else 0
-        if nf != want_n or nb != want_n:
-            return (f'hooks on {type(m).__name__}: fwd_pre={nf} bwd={nb} '
-                    f'expected {want_n}')
+        # every OTHER module is left untouched (no hooks of any kind); which
+        # hooks a registered module carries is an implementation choice
+        nh = (len(m._forward_pre_hooks) + len(m._forward_hooks)
+              + len(m._backward_hooks)
+              + len(getattr(m, '_backward_pre_hooks', {})))
+        if id(m) in reg_insts:
+            if nh == 0:
+                return f'registered {type(m).__name__} carries no hook'
+        elif nh != 0:
+            return f'{nh} hooks on unregistered {type(m).__name__}'
     for name, layer in pre._layers.values():
         if layer.module.module is not dict(model.named_modules())[name]:
             return f'layer {name} wraps a different module'
@@ -72,7 +77,7 @@ def check_tree_gpt(d: dict[str, Any]) -> str | None:
         factor_dtype=None, inv_dtype=torch.float32, symmetry_aware=False)
     got = [name for name, _ in layers.values()]
     want = ['.'.join(leaves[i - 1]['path']) for i in d['reg']]
-    if got != want:
+    if sorted(got) != sorted(want) or len(set(got)) != len(got):
         return f'registered {got} spec {want}'
     if {id(m) for m in layers} != {id(insts[i - 1]) for i in d['reg']}:
         return 'registered instances differ'
